@@ -12,7 +12,8 @@ RULE = ("probe decks for one macrobody card: whole body ('-b' / '+b') and every 
         'reversed height), ARB hexahedron and prism with shuffled facet descriptors; 300 points per deck; Lean spec '
         '(solid = all facet functions negative, facet k = k-th function, outward positive) vs written file. '
         'Streams mixed / filled: macrobodies and their facets inside BSP decks and inside transformed universes. Distinct = (body, parameters, facet).')
-NOT_PROVED = []
+NOT_PROVED = ['ARB (vertex table, facet descriptors, orientation by the centroid): decided by the macromodel correspondence '
+              'and the Lean spec monitor on probe decks, no theorem']
 ASSUMPTIONS = ['right boxes / wedges / prisms, convex ARB with planar facets (MCNP admissibility)']
 
 
